@@ -8,6 +8,7 @@ import (
 	"os/exec"
 	"strings"
 	"sync"
+	"time"
 
 	"github.com/microcosm-cc/bluemonday"
 
@@ -31,7 +32,7 @@ func init() {
 		Rule: "stateless model checking of the real implementation under a cooperative scheduler: 2 goroutines (thorough: also 3) sanitise different short inputs on ONE finished policy built with three overlapping element patterns carrying attribute and style rules, global / element / pattern style rules, a custom URL check, a src rewriter and link options; " +
 			"scheduling points = every statement of package bluemonday and function entries / loop heads of package css (overlay); depth-first search over choice sequences with iterative preemption bounding (quick: c<=2 on two input pairs and c<=1 on four more; thorough: c<=2 on all six pairs, c<=3 on one, three goroutines at c<=2, two calls per goroutine); executions always run to completion; " +
 			"in a second exploration every execution of a `range` over a map is a choice among all permutations of its keys (deviation bound 2 from sorted order, alone and combined with <=1 preemption). " +
-			"Oracle per execution: every call returns exactly the sequential result, repeated calls agree, and the deep snapshot of the policy object graph is the same before and after every execution (read-only); every package-level variable of both packages is snapshotted every 32nd execution. A recorded schedule is replayed twice and must reproduce the same point trace. " +
+			"Oracle per execution: every call returns exactly the sequential result, repeated calls agree, and sanitising does not change later behaviour: the deep snapshot of the policy object graph is compared before and after every execution (package-level variables every 32nd) and, if it changed, the used policy must still agree with a fresh one on 11 probe documents (an object change without behaviour change is noted in the evidence, not reported). A recorded schedule is replayed twice and must reproduce the same point trace. " +
 			"Separately (outside the family, because a cooperative scheduler's hand-offs are happens-before edges): the same bodies run free under Go's race detector, 4 goroutines x 2000 iterations. " +
 			"states = scheduling / map-order choice points visited, transitions = complete executions; non-trivial = executions with at least one preemption or one non-sorted map order.",
 		Assumptions: []string{
@@ -249,6 +250,35 @@ func (e *explorer) run(prefix []int) *execution {
 	return e.x
 }
 
+// c13Probes exercise every rule of the shared policy from each side: elements matching one, two or three
+// of the overlapping patterns, each carrying the attributes and style properties of the other patterns.
+var c13Probes = []string{
+	`<my-y id=a name=7 title=t style="width: 5px; height: 1px; color: blue; width: auto">y</my-y>`,
+	`<my-x id=a name=7 title=t style="width: 5px; height: 1px; color: blue; width: auto">x</my-x>`,
+	`<my-xy id=a name=7 title=t style="width: 5px; height: 1px; color: blue; width: auto">xy</my-xy>`,
+	`<my-xyz id=a name=7 title=t style="width: auto; height: 2px">xyz</my-xyz></my-y></my-x></my-xy>`,
+	`<p id=a style="color: red; color: blue; width: 5px">p</p><span style="color: red; height: 1px">s</span>`,
+	`<a href="http://example.org/" rel=x target=y>l</a><a href="http://e.x/">m</a><a href="/r">n</a><a>bare</a>`,
+	`<img src="https://e.x/i.png"><img src="ftp://e.x/i"><img><object>o</object><b>b</b><i>i</i>`,
+}
+
+// behaviourDiff compares a used policy with a fresh one on the probes (and on the scenario inputs).
+func behaviourDiff(used, fresh *bluemonday.Policy) string {
+	base := len(hooks.SnapshotPolicy(fresh))
+	for _, in := range append(append([]string{}, c13Probes...), c13Inputs...) {
+		// a policy whose tables grow with every call is not probed further (it may grow without bound)
+		if n := len(hooks.SnapshotPolicy(used)); n > 3*base+4096 {
+			return fmt.Sprintf("the policy's object graph keeps growing with use (%d bytes rendered, %d when fresh)", n, base)
+		}
+		a, pa := San(used, in)
+		b, pb := San(fresh, in)
+		if a != b || pa != pb {
+			return fmt.Sprintf("probe %s gives %s on the used policy and %s on a fresh one", run.Q(in), run.Q(a+pa), run.Q(b+pb))
+		}
+	}
+	return ""
+}
+
 func firstSnapDiff(a, b string) string {
 	i := 0
 	for i < len(a) && i < len(b) && a[i] == b[i] {
@@ -349,9 +379,16 @@ func exploreC13(c *run.Ctx, mk func() *bluemonday.Policy, inputs []string, calls
 			}
 		}
 		if !x.snapOK {
-			c.Violate("policy-mutated|"+label, "sanitising changed the policy object graph or a package-level variable: "+x.snapMsg, cs)
-			c.Outcome("violation|mutated")
-			return
+			// The policy object (or a package-level variable) changed while sanitising. That is a violation when it
+			// changes later behaviour; unsynchronised writes are the race detector's business; a synchronised,
+			// behaviour-preserving cache is not forbidden by the property and is only noted.
+			if d := behaviourDiff(e.p, e.mk()); d != "" {
+				c.Violate("policy-mutated|"+label, "sanitising changed the policy's later behaviour: "+d+"; object graph: "+x.snapMsg, cs)
+				c.Outcome("violation|mutated")
+				return
+			}
+			c.Outcome("policy-object-changed-but-behaviour-unchanged")
+			c.Notes["policy_object_changed_during_sanitising"] = x.snapMsg
 		}
 		c.Outcome(label + "|as-sequential")
 	}
@@ -468,11 +505,7 @@ func runC13(c *run.Ctx) {
 		if rb == "" {
 			c.Cap("race-detector binary not provided (VERIF_RACE_BIN unset): data-race clause not checked in this run")
 		} else {
-			cmd := exec.Command(rb, "racebody")
-			cmd.Env = append(os.Environ(), "GORACE=halt_on_error=0 exitcode=0", "GOMAXPROCS=8")
-			var so, se bytes.Buffer
-			cmd.Stdout, cmd.Stderr = &so, &se
-			err := cmd.Run()
+			so, se, err := runRaceBinary(rb)
 			c.Eval()
 			if strings.Contains(se.String(), "DATA RACE") {
 				c.Violate("data-race", "Go's race detector reports a data race between concurrent Sanitize calls on one finished policy:\n"+raceExcerpt(se.String()), c13Case{Inputs: c13Inputs, Calls: -1})
@@ -487,6 +520,27 @@ func runC13(c *run.Ctx) {
 			}
 		}
 	}
+}
+
+// runRaceBinary runs the free-running stress body under the race detector, for at most 90 seconds.
+func runRaceBinary(rb string) (so, se *bytes.Buffer, err error) {
+	so, se = &bytes.Buffer{}, &bytes.Buffer{}
+	cmd := exec.Command(rb, "racebody")
+	cmd.Env = append(os.Environ(), "GORACE=halt_on_error=0 exitcode=0", "GOMAXPROCS=8")
+	cmd.Stdout, cmd.Stderr = so, se
+	if err = cmd.Start(); err != nil {
+		return
+	}
+	done := make(chan error, 1)
+	go func() { done <- cmd.Wait() }()
+	select {
+	case err = <-done:
+	case <-time.After(90 * time.Second):
+		cmd.Process.Kill()
+		<-done
+		err = fmt.Errorf("race pass stopped after 90 s")
+	}
+	return
 }
 
 func raceExcerpt(s string) string {
@@ -562,11 +616,7 @@ func replayC13(raw json.RawMessage) (bool, string) {
 		if rb == "" {
 			return false, "race-detector findings are replayed with the -race binary (VERIF_RACE_BIN; bin/check builds it)"
 		}
-		cmd := exec.Command(rb, "racebody")
-		cmd.Env = append(os.Environ(), "GORACE=halt_on_error=0 exitcode=0", "GOMAXPROCS=8")
-		var so, se bytes.Buffer
-		cmd.Stdout, cmd.Stderr = &so, &se
-		cmd.Run()
+		so, se, _ := runRaceBinary(rb)
 		if strings.Contains(se.String(), "DATA RACE") {
 			return true, "data race reported:\n" + raceExcerpt(se.String())
 		}
@@ -595,7 +645,9 @@ func replayC13(raw json.RawMessage) (bool, string) {
 		}
 	}
 	if !ex.snapOK {
-		return true, "policy mutated: " + ex.snapMsg
+		if d := behaviourDiff(e.p, mk()); d != "" {
+			return true, "policy mutated and later behaviour changed: " + d
+		}
 	}
 	return false, "schedule replays with sequential results"
 }
